@@ -304,7 +304,7 @@ Lemma isolation_etcd : forall xs app entry node (sel : names -> bool),
   (forall x, sel x = true <-> under_names app entry node x) ->
   list_workloads Etcd (map entry_of xs) app entry node = map nm_id (filter sel xs).
 Proof.
-  intros xs app entry node sel F Ha He Hn Sel. unfold list_workloads.
+  intros xs app entry node sel F Ha He Hn Sel. unfold list_workloads. cbv zeta.
   rewrite (filter_map_entry (fun k => under Etcd (list_key app entry node) k)). f_equal.
   apply filter_ext_in. intros x Hx. rewrite Forall_forall in F. specialize (F x Hx).
   cbn [under]. pose proof (prefix_iff_names app entry node x Ha He Hn F) as P.
@@ -343,7 +343,7 @@ Lemma status_etcd : forall xs app entry (sel : names -> bool),
   (forall x, sel x = true <-> (nm_app x = app /\ nm_entry x = entry)) ->
   status_nodes Etcd (map entry_of xs) app entry = map nm_node (filter sel xs).
 Proof.
-  intros xs app entry sel F Sa Se Sel. unfold status_nodes.
+  intros xs app entry sel F Sa Se Sel. unfold status_nodes. cbv zeta.
   assert (Na : app <> []) by apply Sa. assert (Ne : entry <> []) by apply Se.
   rewrite status_key_list_key by assumption.
   induction xs as [|x xs IH]; [reflexivity|]. inversion F as [|? ? Gx Fx]; subst.
@@ -415,7 +415,7 @@ Lemma redis_as_etcd : forall s app entry node,
   no_meta app -> no_meta entry -> no_meta node ->
   list_workloads Redis s app entry node = list_workloads Etcd s app entry node.
 Proof.
-  intros s app entry node Ha He Hn Ma Me Mn. unfold list_workloads. f_equal.
+  intros s app entry node Ha He Hn Ma Me Mn. unfold list_workloads. cbv zeta. f_equal.
   apply filter_ext. intro kw. cbn [under]. apply glob_literal_prefix. apply list_key_no_meta; assumption.
 Qed.
 
@@ -423,7 +423,7 @@ Lemma redis_status_as_etcd : forall s app entry,
   safe_elem app -> safe_elem entry -> no_meta app -> no_meta entry ->
   status_nodes Redis s app entry = status_nodes Etcd s app entry.
 Proof.
-  intros s app entry Sa Se Ma Me. unfold status_nodes. f_equal.
+  intros s app entry Sa Se Ma Me. unfold status_nodes. cbv zeta. f_equal.
   apply filter_ext. intro kw. cbn [under]. apply glob_literal_prefix.
   rewrite status_key_list_key by assumption.
   apply list_key_no_meta; try assumption; try (right; assumption); try (left; reflexivity). reflexivity.
